@@ -649,6 +649,34 @@ func gnNotifStream(rng *rand.Rand, n int, tier string, out string) (*Summary, er
 				single = append(single, s)
 			}
 		}
+		// directed (every tier): the boolean spellings against every list keyed by a boolean or by a
+		// union with a boolean member (the random part reaches these pairs too rarely)
+		{
+			for _, s := range single {
+				ke := s.entry.Dir[s.entry.Key]
+				if ke == nil {
+					continue
+				}
+				_, kt := resolveType(ke)
+				hasBool := kt != nil && kt.Kind == yang.Ybool
+				if kt != nil && kt.Kind == yang.Yunion {
+					for _, m := range flattenUnion(kt) {
+						hasBool = hasBool || m.Kind == yang.Ybool
+					}
+				}
+				if !hasBool {
+					continue
+				}
+				for _, str := range []string{"true", "false", "1", "0", "t", "f", "T", "F", "TRUE", "FALSE", "True", "False", "yes"} {
+					index++
+					if !keep(index) {
+						continue
+					}
+					gnStringKeyCase(p, tf, sum, s, str, false, reflect.Value{}, &id, seen, map[string]interface{}{"pkg": name, "list": strings.Join(s.prefix, "/"), "string": str,
+						"replay": gnReplay{Seed: seed, N: n, Tier: tier, Index: index}})
+				}
+			}
+		}
 		for kc < keyPer || len(exhaustive) > 0 {
 			index++
 			if len(single) == 0 {
